@@ -105,4 +105,11 @@ CHECKS = {
          "scale/reflection (25 factor pairs) in place and not; device membership and copy/scale/rotate/translate. After each program: vertices closed and counter-clockwise, membership of the result equals the Boolean combination of operand memberships "
          "at every probe (even-odd ray casting, probes within 1e-6 of an outline removed), raising only when shapely's result is empty/multi-part/holed, area laws to 1e-9, points map with the shape, originals byte-identical and unaliased."),
    note="shapes limited to the primitive alphabet; probe lattice fixed (41x41, irrational offset); degenerate slivers of exactly empty results (area < 1e-9) are not decided"),
+ "C02": dict(
+   engine="mc-core", category="exploration", design_ref="DESIGN.md 3/C02",
+   technique="exhaustive finite grid over the per-site input space of the documented update solver, against an extended-precision reference with a three-zone refusal rule, plus all real calls recorded inside driven runs",
+   text=("For each (gamma, u, dt) the whole grid |psi| x arg psi x mu x epsilon x Laplacian action (4.5e3 points per call family, 6.7e5 in quick, 5e6 in thorough incl. |psi| down to 1e-160 and dt up to 10) is classified by the reference discriminant: "
+         "all clearly solvable points are submitted as one batch and must be answered with the '+' root (vs the longdouble root), real, non-negative, satisfying psi' + z|psi'|^2 = w and |psi'|^2 = x to rounding; every clearly unsolvable point is submitted "
+         "alone and embedded among solvable points and must be refused. Every call made inside adaptive driven runs (hundreds, most of them refusals) is checked by the same oracle."),
+   note="values between grid points are not explored; overflow excluded by construction; points with |disc| <= 1e-9 b^2 accept either answer"),
 }
